@@ -114,10 +114,10 @@ func blocksOf(nodes []*gen.Node) []types.Block {
 // expectation is what the statement of C01 lets us predict about one
 // AddBlocks call, computed from the generated tree and core only.
 type expectation struct {
-	mustErr   bool   // the call must fail
-	mustOK    bool   // the call must succeed
-	newTip    *gen.Node // non-nil: the tip must be exactly this afterwards (nil = unchanged)
-	why       string
+	mustErr bool      // the call must fail
+	mustOK  bool      // the call must succeed
+	newTip  *gen.Node // non-nil: the tip must be exactly this afterwards (nil = unchanged)
+	why     string
 }
 
 // expect predicts the outcome of submitting batch when the tip is tip.
